@@ -73,9 +73,11 @@ const char* error(); // first model-level misuse (unlock by non-owner, ...) or N
 int mutex_owner(const void* m);
 // optional spurious-wakeup / signal-choice hook: returns index < n of the waiter to wake
 extern int (*choose_waiter)(int n);
-// fine profile: preempt when the running fiber's edge counter reaches this value (0 = off)
-void set_edge_preempt(uint64_t at_a, uint64_t at_b);
+// fine profile: the fiber stepped next is preempted after k basic-block edges of code compiled with
+// -fsanitize-coverage=trace-pc-guard (0 = only at platform calls).  One-shot: cleared by the preemption.
+void set_edge_budget(uint64_t k);
 uint64_t edges();
+uint64_t edge_preemptions();
 
 } // namespace vsim
 #endif
